@@ -267,6 +267,15 @@ func (e *Engine) ProveFunction(fn *ssa.Function) (res *ProofResult) {
 			p.assume(True(), Not(pv.Null))
 		}
 	}
+	// a function literal proved on its own: its captured variables hold arbitrary values
+	for _, fv := range fn.FreeVars {
+		et := fv.Type().(*types.Pointer).Elem()
+		cell := NewCell(fv.Name(), et)
+		v := freshValue(et, "cap."+fv.Name())
+		p.assume(True(), p.typeInv(st, et, v))
+		st.Locals[cell] = v
+		fr.bindings = append(fr.bindings, PtrV{Kind: KLocal, Elem: et, Cell: cell, RootT: et, Null: False()})
+	}
 	fr.args = args
 	fr.entrySt = st.clone()
 	if c != nil {
